@@ -3,6 +3,9 @@
 //	cors hr=<0|1>;m=<hex method>;o=<hex origin>;a=<hex Access-Control-Request-Method>;b=<backend hdr>;r=<rules>;h=<hex Access-Control-Request-Headers>
 //	  hdr   = acao|acac|acam|acah|acma|aceh|vary   field = "_" (absent) or hex values joined by ","
 //	  rules = "_" or rule/rule/…   rule = hit:origins:creds:expose:methods:headers:maxage
+//	corsf c=<fconf>~…;p=…;m=…;o=…;a=…;b=…;h=…;o2=<second Origin hex>;w=<0|1>      rule FILES: fconf = <ok|garbage|nover|nocfg|badcond>@<version hex>@<products>
+//	     every fconf is written as a JSON rule file and loaded by the REAL loadRuleData (hook VerifRunFiles); w=1 builds the request from
+//	     wire bytes through the REAL bfe_http.ReadRequest (header names in odd case, two Origin lines).  Result <load verdicts>|<P|N>;<hdr>.
 //	corsh c=<conf>~<conf>…;p=<product hex>;m=…;o=…;a=…;b=…;h=…    reload history: conf = <version hex>@<product hex>=<rules>&…
 //	     every conf is loaded into ONE module in order (hook VerifRunHistory: real ruleListConvert + CorsRuleTable.Update),
 //	     then the request for product p runs; it is judged against the last accepted conf only.
@@ -13,12 +16,17 @@
 package main
 
 import (
+	"encoding/json"
 	"fmt"
+	"io/ioutil"
+	"os"
+	"path/filepath"
 	"strconv"
 	"strings"
 
 	"bfeverif/harness/internal/vh"
 	"github.com/bfenetworks/bfe/bfe_basic"
+	"github.com/bfenetworks/bfe/bfe_bufio"
 	"github.com/bfenetworks/bfe/bfe_http"
 	"github.com/bfenetworks/bfe/bfe_modules/mod_cors"
 )
@@ -276,6 +284,46 @@ func genHistory(r *vh.Rand) string {
 		hx(acrm), strings.Join(b[:], "|"))
 }
 
+func genFilesOp(r *vh.Rand) string {
+	h := genHistory(r) // same shape; turn the confs into rule files with file-level flags
+	f := strings.Split(h[6:], ";")
+	cs, _ := kv(f[0], "c")
+	var out []string
+	for _, c := range strings.Split(cs, "~") {
+		flag := "ok"
+		if r.Chance(1, 10) {
+			flag = []string{"garbage", "nover", "nocfg", "badcond"}[r.Intn(4)]
+			if flag == "badcond" && !strings.Contains(c, "=") {
+				flag = "garbage" // no rule whose condition could be broken
+			}
+		}
+		out = append(out, flag+"@"+c)
+	}
+	f[0] = "c=" + strings.Join(out, "~")
+	o, _ := kv(f[3], "o")
+	ob, _ := vh.UnHex(o)
+	o2 := ""
+	if r.Chance(1, 3) {
+		o2 = originPool[r.Intn(6)]
+	}
+	w := 0
+	clean := func(v string) bool {
+		if v != strings.TrimSpace(v) {
+			return false
+		}
+		for i := 0; i < len(v); i++ {
+			if v[i] < 0x20 || v[i] > 0x7e {
+				return false
+			}
+		}
+		return true
+	}
+	if clean(string(ob)) && clean(o2) && len(ob) > 0 && r.Chance(2, 3) {
+		w = 1
+	}
+	return "corsf " + strings.Join(f, ";") + ";o2=" + hx(o2) + fmt.Sprintf(";w=%d", w)
+}
+
 func hx(s string) string { return vh.Hex([]byte(s)) }
 
 // plausiblyValid mirrors the loader's origin checks loosely; only used to bias generation.
@@ -297,6 +345,9 @@ func plausiblyValid(ru rule) bool {
 func gen(r *vh.Rand) string {
 	if r.Chance(1, 5) {
 		return genHistory(r)
+	}
+	if r.Chance(1, 6) {
+		return genFilesOp(r)
 	}
 	hasRules := !r.Chance(1, 12)
 	var rules []rule
@@ -447,10 +498,86 @@ func parseRawRules(rs string) (mod_cors.RuleRawList, bool) {
 	return raw, true
 }
 
+var confDir string
+var confSeq int
+
+func jsonStr(s string) string {
+	b, _ := json.Marshal(s)
+	return string(b)
+}
+
+func jsonList(xs []string) string {
+	out := make([]string, len(xs))
+	for i, x := range xs {
+		out[i] = jsonStr(x)
+	}
+	return "[" + strings.Join(out, ", ") + "]"
+}
+
+// ruleFile renders one configuration as the JSON text of a cors_rule.data file.
+func ruleFile(flag, version string, products []string, raws map[string]mod_cors.RuleRawList) string {
+	if flag == "garbage" {
+		return `{"Version": "x", "Config": {"p": [`
+	}
+	var ps []string
+	first := true
+	for _, pn := range products {
+		var rules []string
+		for _, rr := range raws[pn] {
+			cond := rr.Cond
+			if flag == "badcond" && first {
+				cond = "req_host_in("
+			}
+			first = false
+			fields := []string{`"Cond": ` + jsonStr(cond), `"AccessControlAllowOrigins": ` + jsonList(rr.AccessControlAllowOrigins)}
+			if rr.AccessControlAllowCredentials {
+				fields = append(fields, `"AccessControlAllowCredentials": true`)
+			}
+			if rr.AccessControlExposeHeaders != nil {
+				fields = append(fields, `"AccessControlExposeHeaders": `+jsonList(rr.AccessControlExposeHeaders))
+			}
+			if rr.AccessControlAllowMethods != nil {
+				fields = append(fields, `"AccessControlAllowMethods": `+jsonList(rr.AccessControlAllowMethods))
+			}
+			if rr.AccessControlAllowHeaders != nil {
+				fields = append(fields, `"AccessControlAllowHeaders": `+jsonList(rr.AccessControlAllowHeaders))
+			}
+			if rr.AccessControlMaxAge != nil {
+				fields = append(fields, `"AccessControlMaxAge": `+strconv.Itoa(*rr.AccessControlMaxAge))
+			}
+			rules = append(rules, "{"+strings.Join(fields, ", ")+"}")
+		}
+		ps = append(ps, jsonStr(pn)+": ["+strings.Join(rules, ", ")+"]")
+	}
+	var fields []string
+	if flag != "nover" {
+		fields = append(fields, `"Version": `+jsonStr(version))
+	}
+	if flag != "nocfg" {
+		fields = append(fields, `"Config": {`+strings.Join(ps, ", ")+`}`)
+	}
+	return "{" + strings.Join(fields, ", ") + "}"
+}
+
 func execHistory(op string) string {
+	files := strings.HasPrefix(op, "corsf ")
 	f := strings.Split(op[6:], ";")
-	if len(f) != 7 {
+	if (!files && len(f) != 7) || (files && len(f) != 9) {
 		return "bad-op"
+	}
+	var origin2 []byte
+	wire := false
+	if files {
+		o2s, oka := kv(f[7], "o2")
+		ws, okb := kv(f[8], "w")
+		if !oka || !okb {
+			return "bad-op"
+		}
+		var ok bool
+		if origin2, ok = vh.UnHex(o2s); !ok {
+			return "bad-op"
+		}
+		wire = ws == "1"
 	}
 	cs, ok0 := kv(f[0], "c")
 	ps, ok1 := kv(f[1], "p")
@@ -471,11 +598,21 @@ func execHistory(op string) string {
 		return "bad-op"
 	}
 	var confs []mod_cors.VerifConf
+	var flags []string
+	var order [][]string
 	for _, c := range strings.Split(cs, "~") {
 		vp := strings.Split(c, "@")
+		if files {
+			if len(vp) != 3 {
+				return "bad-op"
+			}
+			flags = append(flags, vp[0])
+			vp = vp[1:]
+		}
 		if len(vp) != 2 {
 			return "bad-op"
 		}
+		var names []string
 		ver, ok := vh.UnHex(vp[0])
 		if !ok {
 			return "bad-op"
@@ -496,9 +633,11 @@ func execHistory(op string) string {
 					return "bad-op"
 				}
 				vc.Products[string(pn)] = raw
+				names = append(names, string(pn))
 			}
 		}
 		confs = append(confs, vc)
+		order = append(order, names)
 	}
 	bf := strings.Split(bs, "|")
 	if len(bf) != 7 {
@@ -533,8 +672,58 @@ func execHistory(op string) string {
 	if len(acrh) > 0 {
 		hreq.Header["Access-Control-Request-Headers"] = []string{string(acrh)}
 	}
+	if len(origin2) > 0 && len(origin) > 0 {
+		hreq.Header["Origin"] = append(hreq.Header["Origin"], string(origin2))
+	}
+	if wire {
+		// the same request as wire bytes through the real reader; header names in odd case
+		var sb strings.Builder
+		sb.WriteString(string(method) + " /res HTTP/1.1\r\nhOsT: " + hitHost + "\r\n")
+		if len(origin) > 0 {
+			sb.WriteString("oRiGiN: " + string(origin) + "\r\n")
+		}
+		if len(acrm) > 0 {
+			sb.WriteString("access-control-request-METHOD:  " + string(acrm) + " \r\n")
+		}
+		if len(origin2) > 0 && len(origin) > 0 {
+			sb.WriteString("ORIGIN: " + string(origin2) + "\r\n")
+		}
+		sb.WriteString("\r\n")
+		wreq, err := bfe_http.ReadRequest(bfe_bufio.NewReader(strings.NewReader(sb.String())), 1<<16)
+		if err != nil {
+			return "err:readrequest"
+		}
+		hreq = wreq
+	}
 	req.HttpRequest = hreq
-	kind, h, _ := mod_cors.VerifRunHistory(confs, req, backend)
+	var kind string
+	var h bfe_http.Header
+	loads := ""
+	if files {
+		if confDir == "" {
+			d, err := ioutil.TempDir("", "c52-conf-")
+			if err != nil {
+				return "err:conf"
+			}
+			confDir = d
+		}
+		var paths []string
+		for i, c := range confs {
+			confSeq++
+			pth := filepath.Join(confDir, fmt.Sprintf("r%d.data", confSeq))
+			if err := ioutil.WriteFile(pth, []byte(ruleFile(flags[i], c.Version, order[i], c.Products)), 0644); err != nil {
+				return "err:conf"
+			}
+			paths = append(paths, pth)
+		}
+		loads, kind, h = mod_cors.VerifRunFiles(paths, req, backend)
+		loads += "|"
+		for _, pth := range paths {
+			os.Remove(pth)
+		}
+	} else {
+		kind, h, _ = mod_cors.VerifRunHistory(confs, req, backend)
+	}
 	if h == nil {
 		return "err:handler-" + kind
 	}
@@ -542,11 +731,11 @@ func execHistory(op string) string {
 	for i, k := range hdrKeys {
 		out[i] = encList(h[k])
 	}
-	return kind + ";" + strings.Join(out, "|")
+	return loads + kind + ";" + strings.Join(out, "|")
 }
 
 func exec(op string) string {
-	if strings.HasPrefix(op, "corsh ") {
+	if strings.HasPrefix(op, "corsh ") || strings.HasPrefix(op, "corsf ") {
 		return execHistory(op)
 	}
 	if !strings.HasPrefix(op, "cors ") {
@@ -665,4 +854,11 @@ func exec(op string) string {
 	return kind + ";" + strings.Join(out, "|")
 }
 
-func main() { vh.Main(gen, exec) }
+func main() {
+	defer func() {
+		if confDir != "" {
+			os.RemoveAll(confDir)
+		}
+	}()
+	vh.Main(gen, exec)
+}
